@@ -640,6 +640,11 @@ func (m *Machine) WhenTime(
 	m.activeStatesMx.Lock()
 	defer m.activeStatesMx.Unlock()
 
+	// disposed while waiting for the lock: nothing would close the channel
+	if m.disposed.Load() {
+		return m.subs.Closed
+	}
+
 	return m.subs.WhenTime(states, times, ctx)
 }
 
@@ -692,6 +697,11 @@ func (m *Machine) WhenQuery(
 	// locks
 	m.activeStatesMx.Lock()
 	defer m.activeStatesMx.Unlock()
+
+	// disposed while waiting for the lock: nothing would close the channel
+	if m.disposed.Load() {
+		return m.subs.Closed
+	}
 
 	return m.subs.WhenQuery(clockCheck, ctx)
 }
